@@ -396,4 +396,30 @@ PROPS = {
         "level_text": "Held on the documents observed, except for listed known findings.",
         "level_note": "Trusted: the lexers' tables of bpaf's own tags, requests and escapes.",
     },
+    "C14": {
+        "cases": {"quick": 960, "thorough": 48000},
+        "rule": "Per case one random definition (flags, arguments with completers, positionals, "
+                "shell completers, commands to depth 3, hidden parts, alternatives, adjacent "
+                "groups); sentences are cut after k complete units and completion (revision 0) is "
+                "requested with what is typed next: empty, `-`, `--`, a prefix of a visible long "
+                "name, or the next item of the sentence cut short (names, values, words, command "
+                "names, `name=` forms, value positions). Oracles: always completion output; every "
+                "candidate explained by the definition; hidden names and names of commands not "
+                "entered never offered; for fresh prefixes at item starts every visible, not yet "
+                "given, top-level name of the active level that extends the prefix is offered. "
+                + DISTINCT,
+        "assumptions": COMMON_ASSUMPTIONS + [
+            "strict() positionals are not generated (next to them bpaf offers a `--` hint the "
+            "statement does not mention either way).",
+            "Completeness is demanded only for names sitting directly in the level's sequence "
+            "(not inside alternatives whose sibling may have been taken, not in adjacent groups).",
+        ],
+        "must_observe": ["outcome:completion", "typed:item-start", "typed:value-position",
+                         "explained:visible-name", "explained:visible-command",
+                         "explained:completer-value", "completeness-demands"],
+        "technique": "runtime monitoring: output-protocol monitor (revision-0 candidate parser) "
+                     "with soundness and completeness oracles derived from the definition",
+        "level_text": "Held on the completion requests observed, known findings aside.",
+        "level_note": "Trusted: the harness's reading of which names are visible/entered.",
+    },
 }
